@@ -34,23 +34,24 @@ OWN_V = ["Ops/IndexOps.v", "Ops/Conv.v", "Ops/InterpOps.v", "Corr/CheckC07b.v", 
 # Genuine defects of the unchanged tree found while building this check
 # (proposed entries for known_findings.json; see the builder's report).
 PROPOSED_KNOWN = [
-    {"id": "KF-C07-conv1d-overlapadd", "property": "C07", "family": "Convolve1D",
-     "match": {"method": "overlapadd"},
-     "what": "Convolve1D(dims=N-d, method='overlapadd') raises TypeError at construction "
-             "(convolve1d.py:_choose_convfunc calls partial(oaconvolve, axes=axis)(x)); the documented method is unusable"},
     {"id": "KF-C07-conv1d-long-nd", "property": "C07", "family": "Convolve1D",
-     "match": {"long_nd": True},
+     "predicate": "1-d filter longer than dims[axis] on N-d dims",
      "what": "Convolve1D with a 1-d filter longer than dims[axis] on N-d dims sets dimsd = h.shape: the data has nh samples "
              "instead of prod(dims with dims[axis] := nh) and the fibres are mixed (convolve1d.py:_Convolve1Dlong.__init__)"},
-    {"id": "KF-C01-restriction-repeated", "property": "C01", "family": "Restriction",
-     "match": {"repeated": True},
-     "what": "Restriction adjoint assigns (put_along_axis) instead of accumulating: with a repeated index in iava the adjoint "
-             "is not the transpose of the forward"},
-    {"id": "KF-C01-interp-same-cell", "property": "C01", "family": "Interp",
-     "match": {"same_cell": True},
-     "what": "Interp(kind='linear') with two distinct positions in the same cell [l, l+1): the two Restriction adjoints "
-             "overwrite instead of accumulating, adjoint is not the transpose of the forward (defect 0.75 on n=5, iava=[0.25,0.5,2])"},
 ]
+# fixed in /repo (suppress nothing; reintroduction is a VIOLATION): 1a7ccab Convolve1D(method='overlapadd') on N-d dims,
+# 1a499ab Restriction adjoint accumulates (also repairs Interp(kind='linear') with two positions in one cell).
+
+# families whose documentation defines the adjoint action explicitly: a wrong adjoint matrix is reported here as well
+ADJ_DOCUMENTED = {"Restriction", "Interp"}
+
+
+def _long_nd(fam, p):
+    """Predicate of KF-C07-conv1d-long-nd: 1-d filter longer than dims[axis] on N-d dims."""
+    if fam != "Convolve1D" or len(p["dims"]) < 2:
+        return False
+    return len(p["h"]) > p["dims"][p.get("axis", -1)]
+
 
 
 def prod(d):
@@ -635,7 +636,14 @@ def grid(tier):
         for ax in _axes_of(d):
             n = d[ax]
             add("Restriction", dims=d, axis=ax, iava=r.sample(range(n), max(1, n - 1)))
-    add("Restriction", dims=[5], iava=[1, 1, 3], repeated=True)
+    # repeated indices (adjoint must accumulate)
+    add("Restriction", dims=[5], iava=[1, 1, 3])
+    add("Restriction", dims=[4], iava=[2, 0, 2, 2, 3], inplace=False)
+    add("Restriction", dims=[1], iava=[0, 0])
+    for d in nds:
+        for ax in _axes_of(d):
+            n = d[ax]
+            add("Restriction", dims=d, axis=ax, iava=[n - 1, 0, n - 1] + ([1, 1] if n > 2 else []))
     # ---- Flip / Symmetrize
     for n in sizes:
         add("Flip", dims=[n], scalar_dims=bool(n % 2))
@@ -715,8 +723,15 @@ def grid(tier):
                 for off in (range(nh) if th else sorted(set([0, nh // 2, nh - 1]))):
                     k += 1
                     add("Convolve1D", dims=d, axis=ax, h=_ivec(r, nh, k % 4 == 0), offset=off, method=[None, "fft"][k % 2])
-    add("Convolve1D", dims=[3, 4], axis=0, h=[1, 2, -1], offset=1, method="overlapadd")
-    add("Convolve1D", dims=[3, 2], axis=0, h=[1, 2, 3, 4, 5], offset=1, long_nd=True)
+    for d in nds:
+        for ax in _axes_of(d):
+            n = d[ax]
+            for nh in sorted(set([1, 2, n])):
+                for off in sorted(set([0, nh - 1])):
+                    k += 1
+                    add("Convolve1D", dims=d, axis=ax, h=_ivec(r, nh, k % 4 == 0), offset=off, method="overlapadd")
+    add("Convolve1D", dims=[3, 2], axis=0, h=[1, 2, 3, 4, 5], offset=1)        # known finding KF-C07-conv1d-long-nd
+    add("Convolve1D", dims=[2, 3], axis=-1, h=[1, -1, 2, 1], offset=2, method="fft")
     # ---- Smoothing1D
     for n in (sizes if th else [3, 5, 8]):
         for ns in (1, 2, 3, 4, 5, 7):
@@ -754,7 +769,14 @@ def grid(tier):
         add("Interp", dims=[n], kind="linear", iava=[0.5, n - 1], scalar_dims=True)         # last sample: forced to n-1-eps
         if n > 3:
             add("Interp", dims=[n], kind="linear", iava=[n - 2.125, 1.0, n + 0.5])        # beyond the last sample, unsorted
-    add("Interp", dims=[5], kind="linear", iava=[0.25, 0.5, 2.0], same_cell=True)
+    # two or more distinct positions in one cell [l, l+1) (adjoint must accumulate)
+    add("Interp", dims=[5], kind="linear", iava=[0.25, 0.5, 2.0])
+    add("Interp", dims=[4], kind="linear", iava=[2.75, 2.125, 2.5, 0.5])
+    add("Interp", dims=[2], kind="linear", iava=[0.25, 0.75, 1.0])
+    for d in nds:
+        for ax in _axes_of(d):
+            if d[ax] >= 2:
+                add("Interp", dims=d, axis=ax, kind="linear", iava=[0.25, 0.5, d[ax] - 1.125])
     for d in nds:
         for ax in _axes_of(d):
             n = d[ax]
@@ -805,11 +827,11 @@ def props():
 
 
 def known_for(fam, p, prop=None):
-    for k in PROPOSED_KNOWN + [k for k in common.load_known() if isinstance(k, dict)]:
-        if k.get("family") != fam or (prop and k.get("property") != prop):
-            continue
-        if all(p.get(a) == b for a, b in k.get("match", k.get("params", {})).items()):
-            return k
+    """Known finding matching this configuration (matched on the trigger predicate, not on the property alone)."""
+    if _long_nd(fam, p) and prop in (None, "C07"):
+        for k in [k for k in common.load_known() if isinstance(k, dict)] + PROPOSED_KNOWN:
+            if k.get("id") == "KF-C07-conv1d-long-nd":
+                return k
     return None
 
 
@@ -880,13 +902,16 @@ def coq_eval(recs):
     return res
 
 
-def search(rec, codes):
-    """First differing entry -> constructor args + unit vector + documented vs observed."""
+def search(rec, codes, adjoint=False):
+    """First differing entry -> constructor args + unit vector + documented vs observed.
+    adjoint=True: the adjoint matrix against the conjugate transpose of the documented matrix."""
     F = FAM[rec["family"]]
-    A = rec["A"]
-    out = {"family": rec["family"], "params": rec["params"], "sub": SUB}
+    A = rec["B"] if adjoint else rec["A"]
+    out = {"family": rec["family"], "params": rec["params"], "sub": SUB, "adjoint": bool(adjoint)}
     try:
         Mref = np.asarray(F.ref(rec["params"]))
+        if adjoint:
+            Mref = Mref.conj().T
     except Exception as e:       # the numpy transcription itself failed: fall back on Coq's indices
         Mref = None
         out["ref_error"] = str(e)
@@ -913,16 +938,19 @@ def replay(rp):
         print("reproduced" if rp.get("error") else "not reproduced")
         return 1 if rp.get("error") else 0
     Mref = np.asarray(F.ref(rp["params"]))
+    adj = bool(rp.get("adjoint"))
+    if adj:
+        Mref = Mref.conj().T
     if "shape_documented" in rp:
-        bad = tuple(op.shape) != Mref.shape
-        print("operator shape", op.shape, "documented", Mref.shape)
+        bad = (tuple(op.shape)[::-1] if adj else tuple(op.shape)) != Mref.shape
+        print("operator shape", op.shape, "documented", Mref.shape[::-1] if adj else Mref.shape)
     else:
         W = l1.Wrapped(op)
-        e = np.zeros(W.N)
+        e = np.zeros(W.M if adj else W.N)
         e[rp["unit_vector"]] = 1
-        y = W.fwd(e)
+        y = W.adj(e) if adj else W.fwd(e)
         i = rp["row"]
-        print("Op e_%d [%d] = %s ; documented %s" % (rp["unit_vector"], i, y[i], Mref[i, rp["unit_vector"]]))
+        print("%s e_%d [%d] = %s ; documented %s" % ("Op^H" if adj else "Op", rp["unit_vector"], i, y[i], Mref[i, rp["unit_vector"]]))
         bad = abs(y[i] - Mref[i, rp["unit_vector"]]) > TOL * (1 + abs(Mref[i, rp["unit_vector"]]))
     print("reproduced" if bad else "not reproduced")
     return 1 if bad else 0
@@ -942,6 +970,7 @@ def run(R, tier):
     ok = 0
     adj_notes = []
     failing = {}          # family -> list of (size, rec, codes): shrunk to the smallest configuration below
+    failing_adj = {}      # same for the documented adjoint action (ADJ_DOCUMENTED families)
     for rec in recs:
         fam, p = rec["family"], rec["params"]
         if "error" in rec:
@@ -963,13 +992,12 @@ def run(R, tier):
                 continue
             failing.setdefault(fam, []).append((rec["A"].size, rec["id"], rec, c))
             continue
+        if c[:1] == [2] and fam in ADJ_DOCUMENTED:
+            failing_adj.setdefault(fam, []).append((rec["A"].size, rec["id"], rec, c))
+            continue
         ok += 1
         if c[:1] == [2]:
-            kf = known_for(fam, p, "C01")
-            if kf:
-                R.known_finding(kf["id"], kf["what"] + " [adjoint concern of C01, seen by the C07 run]")
-            else:
-                adj_notes.append("%s %s: adjoint matrix differs from spec^H at %s (judged by C01)" % (fam, p, c[1:3]))
+            adj_notes.append("%s %s: adjoint matrix differs from spec^H at %s (judged by C01)" % (fam, p, c[1:3]))
     for fam, lst in sorted(failing.items()):
         lst.sort(key=lambda t: (t[0], t[1]))
         _, _, rec, c = lst[0]              # smallest failing configuration of the family
@@ -985,6 +1013,17 @@ def run(R, tier):
             rp.update(correspondence="CheckC07b.chkR/chkC: implementation matrix vs Coq specification matrix", coq_codes=c)
             R.violation("%s: %s %s disagrees with the Coq specification matrix at %s but the numpy transcription agrees%s"
                         % (SUB, fam, p, c[1:3], more), rp, no_input=True)
+    for fam, lst in sorted(failing_adj.items()):
+        lst.sort(key=lambda t: (t[0], t[1]))
+        _, _, rec, c = lst[0]
+        p = rec["params"]
+        more = "" if len(lst) == 1 else " (+%d larger failing configurations of this family)" % (len(lst) - 1)
+        rp, found = search(rec, c, adjoint=True)
+        rp["failing_configurations"] = len(lst)
+        R.violation("%s: adjoint of %s %s is not the documented operation (transpose of the documented matrix): "
+                    "Op^H e_%s row %s documented %s observed %s%s"
+                    % (SUB, fam, p, rp.get("unit_vector"), rp.get("row"), rp.get("documented"), rp.get("observed"), more),
+                    rp, no_input=not found)
     if axioms and not set(axioms) <= common.ALLOWED_AXIOMS:
         R.violation("Props/C07b.v depends on unexpected axioms %s" % axioms, {"theorem_file": "Props/C07b.v", "axioms": axioms}, no_input=True)
     R.notes.extend(adj_notes[:10])
